@@ -51,10 +51,23 @@ def run_case(case: dict, st=None) -> Tuple[List[dict], Dict[str, Any]]:
     info: Dict[str, Any] = {}
 
     def viol(kind, what, detail=""):
+        if case.get("pre_noise"):
+            kind += "|after-testing-the-same-circuit-at-another-noise-level"
         viols.append({"key": f"auto-kk|{kind}", "what": what, "case": case, "detail": detail})
 
     ident = LADDERS.get(case["spectrum"], case["spectrum"])
     try:
+        if case.get("pre_noise"):
+            # the same spectrum (same label, same frequencies) at another noise level is tested first in this process: the estimate that
+            # follows must be the estimate for the spectrum actually passed in
+            try:
+                dp = st["gen"](ident, noise=case["pre_noise"], seed=case["seed"])[0]
+                st["ekk"](dp, num_procs=1)
+                st["kk"](dp, num_procs=1)
+                if case["part"] == "drift":
+                    st["kk"](st["gen"](case["spectrum"] + "_INVALID", noise=case["pre_noise"], seed=case["seed"])[0], num_procs=1)
+            except Exception:
+                pass
         d = st["gen"](ident, noise=case["noise"], seed=case["seed"])[0]
         if case["part"] == "noise":
             tests, (r, scores, lo, hi) = st["ekk"](d, num_procs=1)
@@ -127,6 +140,14 @@ def cases(thorough: bool, st) -> List[dict]:
     drift = st["with_drift"] if thorough else [s for s in CHEAP if s in st["with_drift"]]
     for sp, noise, seed in itertools.product(drift, (0.02, 0.05), seeds):
         out.append({"part": "drift", "spectrum": sp, "noise": noise, "seed": seed})
+    # call sequences within one process
+    for sp in (spectra if thorough else spectra[:4] + ["ladder:RC2"]):
+        for a, b in ((0.05, 1.0), (1.0, 0.05)):
+            for seed in (seeds if thorough else (0,)):
+                out.append({"part": "noise", "spectrum": sp, "noise": a, "seed": seed, "pre_noise": b})
+    for sp in (drift if thorough else drift[:3]):
+        for seed in (seeds if thorough else (0,)):
+            out.append({"part": "drift", "spectrum": sp, "noise": 0.02, "seed": seed, "pre_noise": 1.0})
     return out
 
 
@@ -137,7 +158,8 @@ def run(ctx) -> None:
                 "seeds 0..K-1 (K = 2 quick, 5 thorough): estimated/injected noise of the default automatic test inside the frozen band [0.33, 5], "
                 "suggested num_RC inside the limits returned with it, and perform_kramers_kronig_test agreeing with the exploratory entry point; "
                 "for every circuit with a drift-corrupted counterpart x noise {0.02, 0.05} % x seeds: pseudo chi-squared of the counterpart >= 2 x "
-                "that of the valid spectrum. The claim is exhaustive over this finite grid only.")
+                "that of the valid spectrum; and the same judged after the same circuit was tested at another noise level (1 % <-> 0.05 %) in the same "
+                "process. The claim is exhaustive over this finite grid only.")
     ctx.exhaustive = True
     ctx.assumptions = ["statistical property: decided only for the enumerated (circuit, noise, seed) grid with a wide frozen band; mis-calibrations below ~2x are not detectable",
                        "the band was calibrated once on the unchanged tree (0.84 .. 2.55 over 247 cases) and frozen"]
